@@ -159,15 +159,20 @@ def undoItem (sc : Schema) (cfg : Cfg) (t : Table) (it : Item) : Table × UndoRe
         if rows.any fun r => (lookup sc t (keyOf sc r)).isSome then (t, .sqlError)
         else (t ++ rows, .done)
 
+def undoStep (sc : Schema) (cfg : Cfg) (acc : Table × Bool) (it : Item) : Table × Bool :=
+  if !acc.2 then acc
+  else match undoItem sc cfg acc.1 it with
+    | (t', .done) => (t', true)
+    | (t', .skipped) => (t', true)
+    | (_, _) => (acc.1, false)
+
+def undoFold (sc : Schema) (cfg : Cfg) (t : Table) (items : List Item) : Table × Bool :=
+  items.foldl (undoStep sc cfg) (t, true)
+
 /-- Undo of a branch: its items in reverse order inside one local transaction; any failure rolls
     the transaction back (table unchanged) and the branch is NOT reported rollbacked -/
 def undoBranch (sc : Schema) (cfg : Cfg) (t : Table) (b : Branch) : Table × Bool :=
-  let r := b.items.reverse.foldl (fun (acc : Table × Bool) it =>
-    if !acc.2 then acc
-    else match undoItem sc cfg acc.1 it with
-      | (t', .done) => (t', true)
-      | (t', .skipped) => (t', true)
-      | (_, _) => (acc.1, false)) (t, true)
+  let r := undoFold sc cfg t b.items.reverse
   if r.2 then r else (t, false)
 
 end Seata.AT
